@@ -183,6 +183,50 @@ func (bc *boundsChecker) checkIndex(rule string, fn *ssa.Function, a *Arith, in 
 		bc.s.OK(rule, key, m.InstrPos(in), "0 <= index < len proven from dominating comparisons / loop idiom")
 		return
 	}
+	// a helper that indexes one of its parameters with another ("the caller checks i < len(args)"): every caller must
+	paramIdx := func(v ssa.Value) int {
+		if p, isP := v.(*ssa.Parameter); isP {
+			for i, q := range fn.Params {
+				if q == p {
+					return i
+				}
+			}
+		}
+		return -1
+	}
+	if xi := paramIdx(X); xi >= 0 {
+		ii := paramIdx(idx)
+		_, idxConst := idx.(*ssa.Const)
+		if ii >= 0 || idxConst {
+			if node := m.CG.Nodes[fn]; node != nil {
+				n, okAll := 0, true
+				for _, e := range node.In {
+					if e.Site == nil || e.Site.Common().StaticCallee() != fn || !m.InModule(e.Caller.Func) || isUserPkg(fnPkgPath(e.Caller.Func)) {
+						if e.Site != nil && e.Site.Common().StaticCallee() != fn {
+							okAll = false
+						}
+						continue
+					}
+					n++
+					a2 := bc.ar(e.Caller.Func)
+					pt2 := pointOf(e.Site)
+					args := e.Site.Common().Args
+					L2 := bc.lenForm(a2, args[xi])
+					iv2 := iv
+					if ii >= 0 {
+						iv2 = a2.lin(args[ii])
+					}
+					if !(bc.proveGE(a2, iv2, 0, pt2) && bc.proveLE(a2, iv2, L2, -1, pt2)) {
+						okAll = false
+					}
+				}
+				if okAll && n > 0 {
+					bc.s.OK(rule, key, m.InstrPos(in), "established at all %d call sites: 0 <= index < len of the arguments", n)
+					return
+				}
+			}
+		}
+	}
 	var need []string
 	if !lowOK {
 		need = append(need, "index >= 0")
